@@ -197,6 +197,11 @@ def _run_case(ck, case, reqs, pending):
     yb = [float(v) for v in yb]
     md = radius * np.sqrt(np.mean([c[3] for c in cells]) / np.pi)
     md2 = float(md ** 2)
+    tuned = case.get("_tuned")
+    if tuned:
+        # the radius was tuned so that one cell centre lies on the averaging circle exactly in the code's own float arithmetic
+        # (pandas mean, the same expression): "within the radius" includes the circle
+        md2 = float((radius * np.sqrt(dfc["area"].mean() / np.pi)) ** 2)
     coord = max(1e-300, max(abs(v) for v in xb + yb))
 
     # K: get_cells_df against the frame objects
@@ -230,12 +235,33 @@ def _run_case(ck, case, reqs, pending):
     for row in range(grid):
         for col in range(grid):
             cx, cy = (xb[row + 1] + xb[row]) / 2, (yb[col + 1] + yb[col]) / 2
-            sel, near = selection(cells, cx, cy, md2)
-            if near < NEAR:
+            sel, near = selection(got_cells if tuned else cells, cx, cy, md2)
+            if near < NEAR and not (tuned and near == 0.0 and [row, col] == tuned[:2]):
                 ck.count("rejected_near_radius")
                 return
             tot, scale = cell_scale(cells, erows, sel)
             grid_info[(row, col)] = (cx, cy, sel, tot, scale)
+    if case.get("on_circle") and not tuned:
+        # look for a grid cell with one nearest centre well separated from the next, and for a radius that puts it on the circle exactly
+        cr = np.sqrt(dfc["area"].mean() / np.pi)
+        for (row, col), (cx, cy, sel, tot, scale) in sorted(grid_info.items()):
+            d2s = sorted(((cx - g[1]) ** 2 + (cy - g[2]) ** 2, g[0]) for g in got_cells)
+            if len(d2s) < 2 or d2s[0][0] <= 0 or d2s[1][0] < 1.5 * d2s[0][0]:
+                continue
+            t = float(d2s[0][0])
+            r = float(math.sqrt(t) / cr)
+            lo = hi = r
+            found = None
+            for _ in range(400):
+                if float((lo * cr) ** 2) == t:
+                    found = lo; break
+                if float((hi * cr) ** 2) == t:
+                    found = hi; break
+                lo, hi = float(np.nextafter(lo, -np.inf)), float(np.nextafter(hi, np.inf))
+            if found is not None and 0.05 < found < 50:
+                ck.count("radius_tuned_onto_a_cell_centre")
+                return _run_case(ck, dict(case, radius=found, _tuned=[int(row), int(col), int(d2s[0][1])]), reqs, pending)
+        ck.count("on_circle_not_tunable")
     pairs_of_key = {}
     for rc in grid_info:
         pairs_of_key.setdefault(pykey(*rc), []).append(rc)
@@ -320,6 +346,11 @@ def _run_case(ck, case, reqs, pending):
     if list(st_inside[0].keys()) != keys_real or any(np.any(st_inside[0][k] != s1[k]) for k in keys_real):
         ck.fail("Frame.stress_tensor is stress_tensor(frame, coarsing, radius)", "differs from a direct call with the same arguments", case)
 
+    if tuned:
+        # the exact model has no square root and cannot decide a centre on the circle: oracle only
+        ck.case(case, nontrivial=True)
+        ck.count("centre_exactly_on_the_averaging_circle")
+        return
     reqs.append({"op": "st_edges", "edges": ereq})
     reqs.append({"op": "stress_tensor", "cells": [[c[0], rat(c[1]), rat(c[2]), rat(c[3]), rat(c[4])] for c in cells],
                  "edges": [[rat(e[0]), rat(e[1]), rat(e[2]), rat(e[3]), e[4], e[5]] for e in erows],
@@ -478,6 +509,11 @@ def gen_cases(ck):
                 "load": loads_cycle[i % len(loads_cycle)]}
         if i % 13 == 5:
             case["single"] = True
+        if i % 4 == 1:
+            # the radius is then re-tuned so that a cell centre lies on the averaging circle exactly (when such a radius exists)
+            case["on_circle"] = True
+            case["radius"] = float(np.round(ck.rng.uniform(0.4, 1.2), 3))
+            case["grid"] = int(min(grid, 6))
         cases.append(case)
     return cases
 
